@@ -34,13 +34,21 @@ def gen_program(rng, fw, maxlen):
     if rng.random() < 0.85:
         shape = [max(1, s) for s in shape]
     special = rng.random() < 0.4
+    # tensorflow statistics on data whose mean is large against its spread (pixel coordinates with sub-pixel jitter: 2048 + k/8, exact in binary32):
+    # only structural operations and the statistics themselves, so that every intermediate value stays exact and a numerically poor formula shows
+    offset = fw == "tf" and rng.random() < 0.15
     env = [gen_tensor(rng, shape, special), gen_tensor(rng, shape, special)]
+    if offset:
+        for e in env:
+            e["data"] = [2048.0 + x / 8 if (m or not special) else x for x, m in zip(e["data"], e["mask"])]
     # a third input that cat / the right-hand side of ⊕ receive as a PLAIN tensor (the signatures allow it): every element valid
     env.append(dict(gen_tensor(rng, shape, False), mask=[1] * numel(shape), plain=True))
     shapes = [list(shape), list(shape), list(shape)]
     prog = []
     ops = ["index", "slice", "gather", "permute", "transpose", "squeeze", "reshape", "narrow", "cat", "stack", "bin", "bin_scalar", "pow_scalar", "square", "sqrt", "sum", "matmul", "fix_nan"]
     ops += ["squeeze_all", "unsqueeze"] if fw == "torch" else ["mean", "variance", "std"]
+    if offset:
+        ops = ["index", "slice", "gather", "permute", "transpose", "reshape", "narrow", "cat", "stack", "mean", "variance", "std", "variance", "std", "mean"]
     for _ in range(rng.randint(1, maxlen)):
         r = rng.randrange(len(shapes))
         s = shapes[r]
